@@ -307,7 +307,7 @@ func c09One(l *LabCtx) {
 	}
 }
 
-var c09Populate = Profile{Name: "c09-populate", MinTx: 4, MaxTx: 9, Hostile: 0.1, GapBig: 0.02, Equivocate: 0.05, Downtime: 0.08,
+var c09Populate = Profile{Name: "c09-populate", MinTx: 4, MaxTx: 9, Hostile: 0.1, GapBig: 0.02, Equivocate: 0.05, Downtime: 0.08, Fragments: []string{"twinReportsStakeChange"},
 	W: map[string]float64{"submit": 30, "tip": 6, "createReporter": 8, "selectReporter": 9, "delegate": 12, "redelegate": 2, "switchReporter": 2, "proposeDispute": 0.3, "vote": 0.3,
 		"unjailVal": 6, "withdrawTokens": 0.1, "claimDeposits": 0, "requestAttest": 0.1, "privileged": 0, "govProposal": 0, "govVote": 0, "registerSpec": 0.2}}
 
